@@ -121,8 +121,8 @@ Section Edit.
     (forall j, In j imps -> i_path j <> fst pb -> In j (cleanup_import id names tree imps pb)).
   Proof.
     unfold cleanup_import.
-    destruct (match assoc (fst pb) (id_bound id) with
-              | Some (n, true) => (n, None) | Some (n, false) => (n, Some n) | None => (snd pb, None) end) as [pk im].
+    destruct (match assoc_ikey (fst pb, fst (snd pb)) (id_bound id) with
+              | Some (n, true) => (n, None) | Some (n, false) => (n, Some n) | None => (snd (snd pb), None) end) as [pk im].
     match goal with |- context [if ?c then _ else _] => destruct c end.
     - split.
       + intros j Hj. eapply (del_import_sub mk). exact Hj.
@@ -146,7 +146,7 @@ Section Edit.
   (* the matched imports are exactly the import clauses of the '-' side, in order *)
   Lemma match_imports_matched ps specs : forall d id d' id',
     match_imports mk ps specs d id = Some (d', id') ->
-    id_matched id' = id_matched id ++ map (fun p => (p_path p, p_base p)) ps.
+    id_matched id' = id_matched id ++ map (fun p => (p_path p, (p_name p, p_base p))) ps.
   Proof.
     induction ps as [|p ps IH]; intros d id d' id' H; simpl in H.
     - inversion H; subst. rewrite app_nil_r. reflexivity.
